@@ -57,6 +57,38 @@ Proof.
   unfold decide_expr, decide_stmt. rewrite A, B, Ht, Hn. cbn. rewrite !andb_true_r. split; reflexivity.
 Qed.
 
+(** (4) Composition over ANY nesting of blocks.  [spec_sites] is the same traversal with scoping environments in place of
+    catalogues: a site's environment is everything mentioned in the enclosing blocks up to the point where its block was
+    entered, plus ALL mentions of its own block (uses and declarations alike; innermost and most recent first).
+    For every translation unit in which no block mentions a name in both categories: every ambiguity site is decided with
+    a catalogue that agrees with that environment, so the decision IS the environment's reading — typedef name, object /
+    function, or inconclusive when the name is mentioned nowhere in view.  Shadowing at any depth is included; the only
+    departure from C's positional scoping is that a block's own LATER mentions count too (C09_late_redeclaration_refuted). *)
+Lemma unit_is_block l cf c : sites 0 cf c (IBlock l) = sites_list 1 (final_of 1 c l) c l.
+Proof.
+  cbn [sites]. generalize (final_of 1 c l) as cf'. intros cf'. revert c. induction l as [|x r IH]; intros c; [reflexivity|].
+  cbn [sites_list]. rewrite IH. reflexivity.
+Qed.
+
+Theorem C09_sites_follow_scoping : forall l, single (IBlock l) ->
+  Forall2 site_ok (unit_sites l) (spec_sites [] [] (IBlock l)).
+Proof.
+  intros l Hs. unfold unit_sites. rewrite <- (unit_is_block l empty_cat empty_cat).
+  apply sites_agree; try exact Hs.
+  - intros n. split; reflexivity.
+  - intros n. split; reflexivity.
+  - split; intros m k H; discriminate H.
+Qed.
+
+Theorem C09_decisions_are_the_scoping_reading : forall l, single (IBlock l) ->
+  Forall2 (fun s s' => fst (fst s) = fst (fst s') /\ decide_expr (snd s) (snd (fst s)) = reading (snd s') (snd (fst s')) /\
+                       decide_stmt (snd s) (snd (fst s)) = reading (snd s') (snd (fst s')))
+          (unit_sites l) (spec_sites [] [] (IBlock l)).
+Proof.
+  intros l Hs. pose proof (C09_sites_follow_scoping l Hs) as H. induction H as [|s s' r r' [A [B' C]] Hr IH]; constructor; [|exact IH].
+  destruct (decide_agrees _ _ (snd (fst s)) C) as [D E]. rewrite B' in *. repeat split; assumption.
+Qed.
+
 (** The catalogue is per block, not per position: a redeclaration AFTER the site changes the site's
     reading (C gives the typedef of the enclosing block at that point).  Same root as C10's known finding. *)
 Example C09_late_redeclaration_refuted :
@@ -77,3 +109,5 @@ Print Assumptions C09_unhandled_slot_keeps_ambiguity.
 Print Assumptions C09_block_catalogue.
 Print Assumptions C09_own_declaration_wins.
 Print Assumptions C09_unmentioned_is_inherited.
+Print Assumptions C09_sites_follow_scoping.
+Print Assumptions C09_decisions_are_the_scoping_reading.
